@@ -44,7 +44,7 @@ def no_startpoints(rng):
 def generate(rng, tier):
     quick = tier == "quick"
     out = []
-    n = 70 if quick else 250
+    n = 70 if quick else 110
     for i in range(n):
         if i % 12 == 11:
             d, tags = no_startpoints(rng)
